@@ -564,9 +564,9 @@ _F = {   # functions of the pinned tree with four or more lines, by file (one-of
                              "bulk_modulus_reuss", "shear_modulus_reuss", "modulus_adiabatic", "modulus_isothermal"],
     "core/full_modulus.py": ["fit_modulus", "get_static_modulus", "_get_init_strain", "get_axial_strains", "calculate_phonon_contribution", "modulus_adiabatic", "modulus_isothermal"],
     "core/mode_gamma.py": ["interpolate_modes", "interpolate_mode_lsq_poly", "interpolate_mode_spline", "interpolate_mode_ppoly", "interpolate_mode_lagrange", "interpolate_mode_krogh"],
-    "core/phonon_contribution/nonshear.py": ["__init__", "prefactors", "Q", "Q1", "Q2", "zero_point_contribution", "thermal_contribution", "value_isothermal",
+    "core/phonon_contribution/nonshear.py": ["average_over_modes", "__init__", "prefactors", "Q", "Q1", "Q2", "zero_point_contribution", "thermal_contribution", "value_isothermal",
                                              "isothermal_to_adiabatic", "value_adiabatic"],
-    "core/phonon_contribution/shear.py": ["__init__", "fictitious_strain", "fictitious_strain_rotated", "transformation_matrix", "fictitious_strain_energy",
+    "core/phonon_contribution/shear.py": ["calculate_fictitious_strain_energy", "get_fictitious_strain_energy_keys", "__init__", "fictitious_strain", "fictitious_strain_rotated", "transformation_matrix", "fictitious_strain_energy",
                                           "fictitious_strain_energy_rotated", "strain_rotated", "get_target_elastic_modulus"],
     "core/qha_adapter.py": ["__init__", "_load_qha_calculator", "read_input"],
     "core/tasks.py": ["resolve", "calculate", "get_modulus_isothermal", "get_modulus_adiabatic", "get_dependencies", "__setitem__", "__getitem__", "create"],
@@ -739,6 +739,13 @@ def add_segments(rng, schedule, programs):
             if _seg_pair_ok(programs[a][ia], programs[b][ib]):
                 nsw = rng.choice([1, 2, 3, 5, 8, 13, 40])
                 sw = [int(10 ** rng.uniform(0, 3.6)) for _ in range(nsw)]
+                # a share of the switch points is aimed: hand over at the n-th line the running thread executes inside a named function
+                aims = AIM.get(programs[a][ia]["op"], []) + AIM.get(programs[b][ib]["op"], [])
+                if aims:
+                    for j in range(len(sw)):
+                        if rng.random() < 0.35:
+                            f = rng.choice(aims)
+                            sw[j] = [f[0], f[1], rng.choice([1, 2, 2, 3, 4, 5, 8, 13])]
                 out.append({"par": [a, b], "switches": sw})
                 made += 1
                 k += 2
